@@ -283,6 +283,13 @@ def run(ctx, prop):
         for (pr, sig, detail) in cl:
             if pr == prop or pr == "ALL":
                 mine.append((p, sig, detail))
+    # problems of the field-read family that are satisfiable by construction but reported unsolvable: the expression built for `o.w` does
+    # not denote the field of any admissible choice (completeness of the field read; the general claim belongs to C02)
+    if prop == "C17":
+        for p in res["problems"]:
+            if p.get("expect") == "sat" and p["status"] == "unsolvable" and p["family"] == "varfield":
+                mine.append((dict(p, verdict={"expected": "satisfiable by construction", "reported": "unsolvable"}), "c17:field-read:sat-reported-unsolvable",
+                             "satisfiable by construction (an instance meets every constraint stated through the object variable) but reported unsolvable"))
     reported = set()
     for (p, sig, detail) in mine:
         if sig in reported:
@@ -330,6 +337,13 @@ def run(ctx, prop):
            ("n_atoms", "n_active", "n_unified", "n_objs", "n_edges", "n_disj_chosen", "n_interval_active", "n_vars_multi")}
     cov["solution_totals"] = tot
     cov["timeouts"] = sum(1 for p in res["problems"] if p["status"] == "timeout")
+    # problems that are satisfiable / unsatisfiable by construction (an unsatisfiable one reported solved is rejected by the checker anyway;
+    # a satisfiable one reported unsolvable belongs to C02 and is only counted here)
+    exp = [p for p in res["problems"] if p.get("expect")]
+    cov["by_construction"] = {"sat_solved": sum(1 for p in exp if p["expect"] == "sat" and p["status"] == "solved"),
+                              "sat_reported_unsolvable": [p["name"] for p in exp if p["expect"] == "sat" and p["status"] != "solved"],
+                              "unsat_unsolvable": sum(1 for p in exp if p["expect"] == "unsat" and p["status"] == "unsolvable"),
+                              "unsat_reported_solved": [p["name"] for p in exp if p["expect"] == "unsat" and p["status"] == "solved"]}
     cov["crashes"] = [dict(name=p["name"], what=p.get("what")) for p in res["problems"] if p["status"] in ("crash",)][:5]
     for p in res["problems"]:
         if p["status"] == "solved" and p["family"] in ("pl", "tl", "oo"):
